@@ -171,7 +171,7 @@ func (x *Exec) canInline(fr *Frame, callee *ssa.Function) bool {
 	if fr.depth >= x.cfg.InlineDepth {
 		return false
 	}
-	if x.lockStateOn() && x.top != nil && x.top.fn.Pkg != nil && callee.Pkg != x.top.fn.Pkg && !fr.spec {
+	if x.lockStateOn() && x.top != nil && x.top.fn.Pkg != nil && callee.Pkg != x.top.fn.Pkg && !fr.spec && x.effectsOf(callee).Locks {
 		// lock typestate of this package only: functions of other packages are called, not inlined
 		// (they are assumed to leave every mutex as they found it)
 		return false
